@@ -26,6 +26,11 @@ _SRC = os.environ.get("TRANSACTRON_SRC")
 if _SRC:  # self-tests point the harness at a scratch copy of the repository
     sys.path.insert(0, _SRC)
 
+import warnings
+
+warnings.filterwarnings("ignore", message=".*created but never used.*")
+os.environ.setdefault("AMARANTH_ENV_unused_elaboratable", "0")
+
 DEFAULT_SEED = 20260921
 VERIF_DIR = os.path.dirname(os.path.dirname(os.path.abspath(__file__)))
 
